@@ -383,8 +383,8 @@ theorem C02_sound (calls : List (FCall ι)) (hq : ∀ c ∈ calls, QF kb c) (s :
       (C02_arity_call kb ar hwf c (hq c (List.mem_cons_self ..)) s ha)
       (C02_sound_call kb ar hwf v hv c (hq c (List.mem_cons_self ..)) s ha hs)
 
-/-- **`infer`** with any sweep schedules, threshold, step limit and registered node list. -/
-theorem C02_sound_infer (nodes : List ι) (up down : List (FCall ι))
+/-- both invariants through `infer` -/
+theorem C02_infer_inv (nodes : List ι) (up down : List (FCall ι))
     (hup : ∀ c ∈ up, QF kb c) (hdown : ∀ c ∈ down, QF kb c) (eps : α) (fuel : Nat)
     (s : FState ι α) (ha : Arity ar s) (hs : FSat kb v s) :
     FSat kb v (fInfer kb nodes up down eps fuel s).state ∧
@@ -401,6 +401,13 @@ theorem C02_sound_infer (nodes : List ι) (up down : List (FCall ι))
     split
     · exact ⟨hs2, ha2⟩
     · exact ih _ ha2 hs2
+
+/-- **`infer`** with any sweep schedules, threshold, step limit and registered node list. -/
+theorem C02_sound_infer (nodes : List ι) (up down : List (FCall ι))
+    (hup : ∀ c ∈ up, QF kb c) (hdown : ∀ c ∈ down, QF kb c) (eps : α) (fuel : Nat)
+    (s : FState ι α) (ha : Arity ar s) (hs : FSat kb v s) :
+    FSat kb v (fInfer kb nodes up down eps fuel s).state :=
+  (C02_infer_inv kb ar hwf v hv nodes up down hup hdown eps fuel s ha hs).1
 
 end main
 
@@ -438,7 +445,7 @@ theorem C02_no_model_contradiction_infer (kb : FKB ι α) (ar : ι → Nat) (hwf
     (hup : ∀ c ∈ up, QF kb c) (hdown : ∀ c ∈ down, QF kb c) (eps : α) (fuel : Nat)
     (s : FState ι α) (ha : Arity ar s) (hs : FSat kb v s) (nodes' : List ι) :
     fHasContra kb nodes' (fInfer kb nodes up down eps fuel s).state = false :=
-  (C02_sound_infer kb ar hwf v hv nodes up down hup hdown eps fuel s ha hs).1.no_contra nodes'
+  (C02_sound_infer kb ar hwf v hv nodes up down hup hdown eps fuel s ha hs).no_contra nodes'
 
 /-! ### no leak (frame) -/
 
@@ -534,5 +541,197 @@ theorem Arity.addData {ar : ι → Nat} {s : FState ι α} (h : Arity ar s) (kb 
     (g : Gr) (b : Bounds α) (hg : g.length = ar i) :
     Arity ar (s.set i (Table.addData (kb i).world (s.get i) g b)) :=
   SAr.set h i _ (TAr.addData (h i) _ g b hg)
+
+
+/-! ### non-vacuity: a concrete first-order knowledge base, ground model and data meet every
+hypothesis — with one connective in each grounding-management branch — and calls on it really
+create groundings and tighten bounds -/
+
+namespace C02Ex
+
+/-- predicates `P(x)` (0), `Q(x)` (1), `R(x,y)` (3); formula 2 is `And(P(x), Q(x))` (identical
+operand maps: no join), formula 4 is `And(P(x), R(x,y))` (different operand maps: join) -/
+def kb : FKB Nat ℚ := fun i =>
+  match i with
+  | 2 => { kind := .and, ops := [0, 1], ws := [1, 1], bias := 1, alpha := 1, opmap := [[0], [0]],
+           world := ⟨0, 1⟩ }
+  | 4 => { kind := .and, ops := [0, 3], ws := [1, 1], bias := 1, alpha := 1,
+           opmap := [[0], [0, 1]], world := ⟨0, 1⟩ }
+  | _ => { kind := .pred, bias := 1, alpha := 1, world := ⟨0, 1⟩ }
+
+def ar : Nat → Nat := fun i =>
+  match i with
+  | 3 => 2
+  | 4 => 2
+  | _ => 1
+
+def vP (g : Gr) : ℚ := match g with | [0] => 1 | [1] => 1/2 | _ => 0
+def vQ (g : Gr) : ℚ := match g with | [0] => 3/4 | [1] => 1/2 | _ => 0
+def vR (g : Gr) : ℚ := match g with | [0, 1] => 1/2 | _ => 0
+
+/-- two constants `0`, `1`: `P(0) = 1`, `P(1) = 1/2`, `Q(0) = 3/4`, `Q(1) = 1/2`, `R(0,1) = 1/2`,
+every other ground atom `0`; the conjunctions take the values their truth functions dictate -/
+def v : Nat → Gr → ℚ := fun i g =>
+  match i with
+  | 0 => vP g
+  | 1 => vQ g
+  | 2 => clamp01 (1 - (1 * (1 - vP (proj [0] g)) + (1 * (1 - vQ (proj [0] g)) + 0)))
+  | 3 => vR g
+  | 4 => clamp01 (1 - (1 * (1 - vP (proj [0] g)) + (1 * (1 - vR (proj [0, 1] g)) + 0)))
+  | _ => 0
+
+/-- `P(0) = [1,1]`, `P(1) = [1/2,1/2]`, `Q(0) = [3/4,3/4]`, `R(0,1) = [1/2,1/2]`; `Q(1)` and all
+other ground atoms are not asserted -/
+def s : FState Nat ℚ :=
+  ⟨[(0, [⟨[0], ⟨1, 1⟩, ⟨1, 1⟩⟩, ⟨[1], ⟨1/2, 1/2⟩, ⟨1/2, 1/2⟩⟩]),
+    (1, [⟨[0], ⟨3/4, 3/4⟩, ⟨3/4, 3/4⟩⟩]),
+    (3, [⟨[0, 1], ⟨1/2, 1/2⟩, ⟨1/2, 1/2⟩⟩])]⟩
+
+example : FWF kb ar := by
+  constructor
+  · intro i; unfold kb; split <;> simp
+  · intro i; unfold kb; split <;> simp
+  · intro i; unfold kb; split <;> simp [FKind.isConn]
+  · intro i; unfold kb; split <;> simp [FKind.isConn, ar]
+  · intro i; unfold kb; split <;> simp [FKind.isConn, ar, numVars, dedup]
+  · intro i; unfold kb; split <;> simp [FKind.isConn, ar]
+  · intro i; unfold kb; split <;> simp [FKind.isConn, ar, isHomogeneous]
+  · intro i; unfold kb; split <;> simp
+  · intro i; unfold kb; split <;> simp [ar]
+
+theorem vP_01 (g : Gr) : 0 ≤ vP g ∧ vP g ≤ 1 := by unfold vP; split <;> norm_num
+theorem vQ_01 (g : Gr) : 0 ≤ vQ g ∧ vQ g ≤ 1 := by unfold vQ; split <;> norm_num
+theorem vR_01 (g : Gr) : 0 ≤ vR g ∧ vR g ≤ 1 := by unfold vR; split <;> norm_num
+
+theorem v_01 (i : Nat) (g : Gr) : 0 ≤ v i g ∧ v i g ≤ 1 := by
+  unfold v
+  split
+  · exact vP_01 g
+  · exact vQ_01 g
+  · exact ⟨clamp01_nonneg _, clamp01_le_one _⟩
+  · exact vR_01 g
+  · exact ⟨clamp01_nonneg _, clamp01_le_one _⟩
+  · norm_num
+
+example : FConsistent kb ar v := by
+  intro i g
+  refine ⟨(v_01 i g).1, (v_01 i g).2, ?_⟩
+  intro _ y hy
+  match i with
+  | 0 => simp [kb, fNodeVal] at hy
+  | 1 => simp [kb, fNodeVal] at hy
+  | 2 =>
+    simp [kb, fNodeVal, connVal, fOpVals] at hy
+    rw [← hy]
+    simp [v]
+  | 3 => simp [kb, fNodeVal] at hy
+  | 4 =>
+    simp [kb, fNodeVal, connVal, fOpVals] at hy
+    rw [← hy]
+    simp [v]
+  | (n + 5) => simp [kb, fNodeVal] at hy
+
+theorem s_get (i : Nat) : s.get i =
+    match i with
+    | 0 => [⟨[0], ⟨1, 1⟩, ⟨1, 1⟩⟩, ⟨[1], ⟨1/2, 1/2⟩, ⟨1/2, 1/2⟩⟩]
+    | 1 => [⟨[0], ⟨3/4, 3/4⟩, ⟨3/4, 3/4⟩⟩]
+    | 3 => [⟨[0, 1], ⟨1/2, 1/2⟩, ⟨1/2, 1/2⟩⟩]
+    | _ => [] := by
+  match i with
+  | 0 => rfl
+  | 1 => rfl
+  | 2 => rfl
+  | 3 => rfl
+  | (n + 4) => simp [s, FState.get]
+
+example : Arity ar s := by
+  intro i r hr
+  rw [s_get] at hr
+  match i with
+  | 0 => simp at hr; rcases hr with rfl | rfl <;> rfl
+  | 1 => simp at hr; subst hr; rfl
+  | 2 => simp at hr
+  | 3 => simp at hr; subst hr; rfl
+  | (n + 4) => simp at hr
+
+example : FSat kb v s := by
+  intro i
+  have hw : (kb i).world = ⟨0, 1⟩ := by unfold kb; split <;> rfl
+  refine ⟨?_, fun g _ => by rw [hw]; exact v_01 i g⟩
+  intro r hr
+  rw [s_get] at hr
+  match i with
+  | 0 => simp at hr; rcases hr with rfl | rfl <;> simp [v, vP]
+  | 1 => simp at hr; subst hr; simp [v, vQ]
+  | 2 => simp at hr
+  | 3 => simp at hr; subst hr; simp [v, vR]
+  | (n + 4) => simp at hr
+
+/-- the state after the grounding management of formula 2: `Q(1)` and both instances of the
+conjunction exist, at their world defaults -/
+def s2 : FState Nat ℚ :=
+  ⟨[(2, [⟨[0], ⟨0, 1⟩, ⟨0, 1⟩⟩, ⟨[1], ⟨0, 1⟩, ⟨0, 1⟩⟩]),
+    (1, [⟨[0], ⟨3/4, 3/4⟩, ⟨3/4, 3/4⟩⟩, ⟨[1], ⟨0, 1⟩, ⟨0, 1⟩⟩]),
+    (0, [⟨[0], ⟨1, 1⟩, ⟨1, 1⟩⟩, ⟨[1], ⟨1/2, 1/2⟩, ⟨1/2, 1/2⟩⟩]),
+    (3, [⟨[0, 1], ⟨1/2, 1/2⟩, ⟨1/2, 1/2⟩⟩])]⟩
+
+theorem groundings2 : groundings kb 2 false s =
+    (s2, some ([[0], [1]], [[[0], [1]], [[0], [1]]])) := by
+  rfl
+
+/-- the upward call on `And(P(x), Q(x))` creates both ground instances and tightens them:
+`And(0) = [3/4, 3/4]` and — with the unasserted `Q(1)` read at its world default `[0,1]` —
+`And(1) = [0, 1/2]`; nothing of constant `0` leaks into the instance at constant `1` -/
+example : (runFCall kb (.up 2) s).1.get 2 =
+    [⟨[0], ⟨0, 1⟩, ⟨3/4, 3/4⟩⟩, ⟨[1], ⟨0, 1⟩, ⟨0, 1/2⟩⟩] := by
+  have h0 : s2.get 0 = [⟨[0], ⟨1, 1⟩, ⟨1, 1⟩⟩, ⟨[1], ⟨1/2, 1/2⟩, ⟨1/2, 1/2⟩⟩] := rfl
+  have h1 : s2.get 1 = [⟨[0], ⟨3/4, 3/4⟩, ⟨3/4, 3/4⟩⟩, ⟨[1], ⟨0, 1⟩, ⟨0, 1⟩⟩] := rfl
+  have h2 : s2.get 2 = [⟨[0], ⟨0, 1⟩, ⟨0, 1⟩⟩, ⟨[1], ⟨0, 1⟩, ⟨0, 1⟩⟩] := rfl
+  have hk : (kb 2).kind = .and := rfl
+  have hops : (kb 2).ops = [0, 1] := rfl
+  have hws : (kb 2).ws = [1, 1] := rfl
+  have hb : (kb 2).bias = 1 := rfl
+  have ha : (kb 2).alpha = 1 := rfl
+  have hw0 : (kb 0).world = ⟨0, 1⟩ := rfl
+  have hw1 : (kb 1).world = ⟨0, 1⟩ := rfl
+  simp only [runFCall, fUp, hk, fUpConn, groundings2, get_set_self]
+  simp [List.range_succ, hops, hws, hb, ha, hw0, hw1, h0, h1, h2, rowsOf, Table.getD, Table.find?,
+    Table.setB, isContra, region, fActUp, hk, andUp, termLo, termHi, aggRow, aggregate, clamp01]
+  norm_num
+
+/-- the state after the grounding management of formula 4: the (pandas-style) outer join of `P(x)`
+and `R(x,y)` on `x` yields the operator groundings `(0,1)` and `(1,1)`; `R(1,1)` is created at its
+world default -/
+def s4 : FState Nat ℚ :=
+  ⟨[(4, [⟨[0, 1], ⟨0, 1⟩, ⟨0, 1⟩⟩, ⟨[1, 1], ⟨0, 1⟩, ⟨0, 1⟩⟩]),
+    (3, [⟨[0, 1], ⟨1/2, 1/2⟩, ⟨1/2, 1/2⟩⟩, ⟨[1, 1], ⟨0, 1⟩, ⟨0, 1⟩⟩]),
+    (0, [⟨[0], ⟨1, 1⟩, ⟨1, 1⟩⟩, ⟨[1], ⟨1/2, 1/2⟩, ⟨1/2, 1/2⟩⟩]),
+    (1, [⟨[0], ⟨3/4, 3/4⟩, ⟨3/4, 3/4⟩⟩])]⟩
+
+theorem groundings4 : groundings kb 4 false s =
+    (s4, some ([[0, 1], [1, 1]], [[[0], [1]], [[0, 1], [1, 1]]])) := by
+  rfl
+
+/-- the join branch: the upward call on `And(P(x), R(x,y))` computes the instance at `(0,1)` from
+`P(0)` and `R(0,1)` — `[1/2, 1/2]` — and the instance at `(1,1)` from `P(1)` and the unasserted
+`R(1,1)` — `[0, 1/2]` -/
+example : (runFCall kb (.up 4) s).1.get 4 =
+    [⟨[0, 1], ⟨0, 1⟩, ⟨1/2, 1/2⟩⟩, ⟨[1, 1], ⟨0, 1⟩, ⟨0, 1/2⟩⟩] := by
+  have h0 : s4.get 0 = [⟨[0], ⟨1, 1⟩, ⟨1, 1⟩⟩, ⟨[1], ⟨1/2, 1/2⟩, ⟨1/2, 1/2⟩⟩] := rfl
+  have h3 : s4.get 3 = [⟨[0, 1], ⟨1/2, 1/2⟩, ⟨1/2, 1/2⟩⟩, ⟨[1, 1], ⟨0, 1⟩, ⟨0, 1⟩⟩] := rfl
+  have h4 : s4.get 4 = [⟨[0, 1], ⟨0, 1⟩, ⟨0, 1⟩⟩, ⟨[1, 1], ⟨0, 1⟩, ⟨0, 1⟩⟩] := rfl
+  have hk : (kb 4).kind = .and := rfl
+  have hops : (kb 4).ops = [0, 3] := rfl
+  have hws : (kb 4).ws = [1, 1] := rfl
+  have hb : (kb 4).bias = 1 := rfl
+  have ha : (kb 4).alpha = 1 := rfl
+  have hw0 : (kb 0).world = ⟨0, 1⟩ := rfl
+  have hw3 : (kb 3).world = ⟨0, 1⟩ := rfl
+  simp only [runFCall, fUp, hk, fUpConn, groundings4, get_set_self]
+  simp [List.range_succ, hops, hws, hb, ha, hw0, hw3, h0, h3, h4, rowsOf, Table.getD, Table.find?,
+    Table.setB, isContra, region, fActUp, hk, andUp, termLo, termHi, aggRow, aggregate, clamp01]
+  norm_num
+
+end C02Ex
 
 end LNN
